@@ -82,9 +82,10 @@ class ServerWorld:
         return _T()
 
     def _bg_async(self, target, *args, **kwargs):
-        t = asyncio.ensure_future(target(*args, **kwargs), loop=self.loop)
-        self.background.append(t)
-        return t
+        # not started now: the coroutine is created and run at settle(); the caller gets a future
+        fut = self.loop.create_future()
+        self.background.append((target, args, kwargs, fut))
+        return fut
 
     def settle(self):
         """Run queued background handlers to completion (in spawn order)."""
@@ -92,10 +93,16 @@ class ServerWorld:
         while self.background:
             item = self.background.pop(0)
             if self.is_async:
+                target, args, kwargs, fut = item
                 try:
-                    self.loop.run_until_complete(asyncio.gather(item, return_exceptions=False))
+                    r = self.loop.run_until_complete(target(*args, **kwargs))
+                    if not fut.done():
+                        fut.set_result(r)
                 except Exception as ex:   # noqa
                     errors.append(type(ex).__name__)
+                    if not fut.done():
+                        fut.set_result(None)
+                self.loop.run_until_complete(asyncio.sleep(0))
             else:
                 target, args, kwargs = item
                 try:
